@@ -182,7 +182,8 @@ message is limited to. -/
 def RibItem.attrs : RibItem → Bytes
   | (_, _, _, _, a) => a
 
-/-- **rib_entry_attributes_bytes.** For every well-formed file the attribute
+/-- **rib_entry_attributes_bytes** (a projection of `rib_entries_eq` / `mt_file_order_eq` to the
+attribute component – no new content, stated for reference). For every well-formed file the attribute
 blocks the sequential iterator, the per-table iterators and the parallel
 iterator (in file order) yield are, entry by entry and octet for octet, the
 blocks of the file – of any length from 0 to 65535. -/
@@ -247,7 +248,8 @@ theorem attr_block_any_length (a : Bytes) (ha : a.length ≤ 65535) :
 example : (List.replicate 65535 (0x5a : UInt8)).length ≤ 65535 := by rw [List.length_replicate]; exact Nat.le_refl _
 example : (List.replicate 4097 (0 : UInt8)).length ≤ 65535 := by rw [List.length_replicate]; omega
 
-/-- the Attribute Length field is the whole story: an entry is well formed for a
+/-- (a restatement of the definition of `WfEntry` with `≤ 65535` for `< 65536`, for reference;
+`attr_block_any_length` is the theorem with content) the Attribute Length field is the whole story: an entry is well formed for a
 file with `np` peers iff its indices and time fit their fields and its block
 fits the two-octet length – no other demand is made of the attribute octets -/
 theorem wfEntry_iff (np : Nat) (e : EntrySpec) :
